@@ -11,7 +11,9 @@ import (
 	"errors"
 	"fmt"
 	"math"
+	"os"
 	"runtime"
+	"strconv"
 	"strings"
 	"sync"
 	"testing"
@@ -315,11 +317,11 @@ func TestVerifC18(t *testing.T) {
 	}
 	retriesSet := []int{-5, -4, -3, -2, Forever, 0, 1, 2, 3, 4, 5}
 	keeps := []int{0, 1, 2, 10, -3}
-	maxLen, evLen := 6, 4
+	maxLen, evLen := 6, 6
 	if vthorough() {
 		retriesSet = append(retriesSet, 6, 7, 8, 100, math.MaxInt64, math.MinInt64)
 		keeps = append(keeps, 3, 5, math.MaxInt64, math.MinInt64)
-		maxLen, evLen = 7, 6
+		maxLen, evLen = 7, 7
 	}
 	var cases []c18case
 	pick := func() ExpBackOff { return policies[rng.intn(len(policies))] }
@@ -352,6 +354,9 @@ func TestVerifC18(t *testing.T) {
 	trials := 3
 	if vthorough() {
 		trials = 8
+	}
+	if v, err := strconv.Atoi(os.Getenv("VERIF_C18_TRIALS")); err == nil && v > 0 {
+		trials = v // replays ask for more trials so that a scheduling-dependent failure shows reliably
 	}
 	for _, s := range c18sequences(evLen) {
 		for _, r := range retriesSet {
